@@ -132,6 +132,20 @@ check("C03",
       "TLA+ oracle (TetCore) + cache-state model (C03_MC) + exhaustive enumeration (TetEnum) with TLC; replay into VolumeMesh; TLC trace validation (C03_Trace)",
       "DESIGN.md 6.3")
 
+check("C09",
+      "TLC checks the Dijkstra-with-lazy-deletion machine (one step = pop a minimum entry, skip if settled, else relax and push "
+      "every unsettled neighbour) on EVERY graph with 3 nodes (weights 0..2) and 4 nodes (weights 0..1; 0..2 in thorough), every "
+      "start and every tie-break: termination (liveness under weak fairness), dist = Bellman-Ford distances, settled vertices "
+      "final, back-tracked paths shortest. The real functions run on polylines (all graphs on <= 4 vertices), enumerated "
+      "surfaces, integer-length lattices (axis and 3-4-5 grids) and Kuhn volumes for every weight mode (unit, Euclidean, dict, "
+      "Attribute), single / list / set targets, start inside the set, the border; the library's PriorityQueue is wrapped in the "
+      "harness process and TLC validates (a) every returned path as a minimum-weight edge path, (b) nearest member for sets / "
+      "border, (c) that the recorded push/pop sequence is a behaviour of the Dijkstra machine.",
+      "Non-negative integer weights only (Euclidean mode on lattices with integer edge lengths). Unreachable targets are skipped. "
+      "Any optimal path is accepted. The optional path polyline is not judged.",
+      "TLA+ Dijkstra state machine (C09_Paths, C09_MC) model-checked incl. liveness; TLC trace validation of results and of the real priority-queue traffic (C09_Trace)",
+      "DESIGN.md 6.9")
+
 ALL = ["C%02d" % i for i in range(1, 21)]
 
 
